@@ -80,7 +80,7 @@ macro_rules! group_array_harness {
                 let mut t = Track::new();
                 let tr: *mut Track = &mut t;
                 let p = tracked_multi($n, tr);
-                let r = group([$({ let _ = $k; p.clone() }),*]).go::<M>(inp);
+                let r = group([$({ let _ = $k; p.clone() }),*]).gov::<M>(inp);
                 let s = snap(inp);
                 let mut all_ok = true;
                 let mut made = 0usize;
@@ -121,7 +121,7 @@ macro_rules! collect_exactly_harness {
                     mapper: move |_o: u16| D::make(tr),
                     phantom: crate::EmptyPhantom::<u16>::new(),
                 };
-                let r = it.collect_exactly::<$ty>().go::<M>(inp);
+                let r = it.collect_exactly::<$ty>().gov::<M>(inp);
                 let s = snap(inp);
                 // items yielded before the iteration ended (at most N are requested)
                 let mut yielded = 0usize;
